@@ -4,8 +4,10 @@
    correspondence run (coq/Corr/C25.v, harness/src/bin/c25.rs).
    A history is a list of calls (Ins / Del / Vac / Reopen / Search) made by a caller that keeps the table
    of live rows `tbl` (what the get_vector callbacks answer from); `run0 p ops` is the world (index state
-   + table) after the history; `class_of` is 0 while no node has been deleted, 1 once some node is
-   deleted, 2 once the entry point is deleted (recorded findings F-C25-1 / F-C25-2). *)
+   + table) after the history; `class_of` is 0 while no node has been deleted and the first node page
+   is at most half full, 1 once some node is deleted, 2 once the entry point is deleted, 3 once more than
+   8192 bytes of the first node page are in use (recorded findings F-C25-1 / F-C25-2 / F-C25-3; in
+   class 3 the implementation's slot offsets alias and this byte-free model no longer describes it). *)
 From Coq Require Import ZArith List Bool.
 From TV Require Import Model.Hnsw Model.Sq8 Proof.HnswHeap Proof.HnswSearch Proof.HnswFuel Proof.HnswSound Proof.HnswAll Proof.HnswComplete Proof.Sq8.
 Import ListNotations.
